@@ -1,18 +1,613 @@
-//! C11 — (stub, under construction)
+//! C11 — WOFF2 decoding reconstructs the original font.
 
 use super::Prop;
 use crate::rt::*;
+use crate::sfnt::glyf::{self as ig, Args, Component, Composite, EncChoice, Glyph, Scale};
+use crate::sfnt::tables as it;
+use crate::sfnt::woff2::{self as w2, GlyfChoices, W2Table};
+use crate::sfnt::{self, tag};
+use allsorts::binary::read::ReadScope;
+use allsorts::font_data::FontData;
+use allsorts::tables::{FontTableProvider, SfntVersion};
+use allsorts::woff2::{PackedU16, U32Base128};
 
-pub struct C11 {}
+pub struct C11 {
+    seeds: Vec<SeedFont>,
+}
 
 impl C11 {
-    pub fn new(_cx: &mut Ctx) -> C11 {
-        C11 {}
+    pub fn new(cx: &mut Ctx) -> C11 {
+        let max = if cx.quick() { 120_000 } else { 700_000 };
+        let seeds = load_seed_fonts(max, true)
+            .into_iter()
+            .filter(|f| f.data.len() >= 4 && (&f.data[..4] == [0, 1, 0, 0] || &f.data[..4] == b"OTTO" || &f.data[..4] == b"true"))
+            .collect();
+        C11 { seeds }
     }
 }
 
+/// A TrueType font in abstract form.
+#[derive(Clone)]
+pub struct TtFont {
+    pub flavor: u32,
+    pub glyphs: Vec<(Glyph, ig::BBox)>,
+    pub metrics: Vec<(u16, i16)>,
+    pub num_h_metrics: usize,
+    pub head: Vec<u8>,
+    pub hhea: Vec<u8>,
+    pub maxp: Vec<u8>,
+    pub loca_long: bool,
+    /// remaining tables, byte-exact
+    pub others: Vec<(u32, Vec<u8>)>,
+    pub name: String,
+}
+
+fn xmin_of(g: &(Glyph, ig::BBox)) -> i16 {
+    match &g.0 {
+        Glyph::Empty => 0,
+        Glyph::Simple(s) if s.contours.is_empty() => 0,
+        _ => g.1.x_min,
+    }
+}
+
+pub fn gen_ttfont(rng: &mut Rng, quick: bool) -> TtFont {
+    let n = 1 + rng.below(if quick { 14 } else { 40 });
+    let range = *rng.pick(&[200i32, 2000, 16000, 32767]);
+    let mut glyphs: Vec<(Glyph, ig::BBox)> = Vec::new();
+    for i in 0..n {
+        let g = if rng.chance(1, 8) {
+            Glyph::Empty
+        } else if i >= 2 && rng.chance(1, 5) {
+            let nc = 1 + rng.below(3);
+            let components = (0..nc)
+                .map(|_| Component {
+                    gid: rng.below(i) as u16,
+                    args: if rng.chance(1, 6) { Args::Points(rng.below(5) as u16, rng.below(5) as u16) } else { Args::XY(rng.range(-500, 500) as i16, rng.range(-500, 500) as i16) },
+                    scale: match rng.below(4) {
+                        0 => Scale::Uniform(rng.range(-32768, 32767) as i16),
+                        1 => Scale::XY(rng.range(-32768, 32767) as i16, 16384),
+                        2 => Scale::Matrix(16384, rng.range(-100, 100) as i16, rng.range(-100, 100) as i16, 16384),
+                        _ => Scale::None,
+                    },
+                    extra_flags: *rng.pick(&[0u16, 0x200, 0x4, 0x1000, 0x400]),
+                    force_words: rng.chance(1, 4),
+                })
+                .collect();
+            let il = if rng.chance(1, 3) { 1 + rng.below(12) } else { 0 };
+            Glyph::Composite(Composite { components, instructions: rng.bytes(il) })
+        } else {
+            let mut s = ig::gen_simple(rng, 5, 30, range);
+            if rng.chance(1, 30) {
+                // > 255 instructions / many points to reach the multi-byte 255UInt16 forms
+                let il = 250 + rng.below(600);
+                s.instructions = rng.bytes(il);
+            }
+            if s.contours.is_empty() {
+                Glyph::Empty
+            } else {
+                Glyph::Simple(s)
+            }
+        };
+        let bb = match &g {
+            Glyph::Simple(s) => {
+                if rng.chance(1, 6) {
+                    ig::BBox { x_min: rng.range(-100, 0) as i16, y_min: rng.range(-100, 0) as i16, x_max: rng.range(0, 100) as i16, y_max: rng.range(0, 100) as i16 }
+                } else {
+                    s.bbox()
+                }
+            }
+            Glyph::Composite(_) => ig::BBox { x_min: rng.range(-300, 0) as i16, y_min: rng.range(-300, 0) as i16, x_max: rng.range(0, 900) as i16, y_max: rng.range(0, 900) as i16 },
+            Glyph::Empty => ig::BBox { x_min: 0, y_min: 0, x_max: 0, y_max: 0 },
+        };
+        glyphs.push((g, bb));
+    }
+    let num_h_metrics = match rng.below(3) {
+        0 => n,
+        1 => 1,
+        _ => 1 + rng.below(n),
+    };
+    let lsb_is_xmin = rng.chance(2, 3);
+    let mut metrics: Vec<(u16, i16)> = Vec::new();
+    let mut last_adv = 0;
+    for (i, g) in glyphs.iter().enumerate() {
+        let adv = if i < num_h_metrics { rng.below(3000) as u16 } else { last_adv };
+        last_adv = adv;
+        let lsb = if lsb_is_xmin || rng.bool() { xmin_of(g) } else { rng.range(-500, 500) as i16 };
+        metrics.push((adv, lsb));
+    }
+    let mut others: Vec<(u32, Vec<u8>)> = Vec::new();
+    let mut used = vec![tag("head"), tag("hhea"), tag("maxp"), tag("hmtx"), tag("glyf"), tag("loca")];
+    for _ in 0..rng.below(8) {
+        let t = match rng.below(3) {
+            0 => tag(w2::KNOWN_TAGS[rng.below(63)]),
+            1 => rng.u32() | 0x2020_2020,
+            _ => u32::from_be_bytes([b'x', b'y', b'a' + rng.below(26) as u8, b'0' + rng.below(10) as u8]),
+        };
+        if used.contains(&t) || t == tag("CFF ") || t == tag("CFF2") {
+            continue;
+        }
+        used.push(t);
+        let len = match rng.below(6) {
+            0 => 0,
+            1 => 1,
+            2 => 65_536 + rng.below(70_000),
+            _ => rng.below(400),
+        };
+        others.push((t, rng.bytes(len)));
+    }
+    let loca_long = rng.chance(1, 3);
+    let head = it::Head { index_to_loc_format: loca_long as i16, ..Default::default() }.write();
+    let hhea = it::Hhea { num_h_metrics: num_h_metrics as u16, ascender: 800, descender: -200, ..Default::default() }.write();
+    TtFont { flavor: 0x0001_0000, glyphs, metrics, num_h_metrics, head, hhea, maxp: it::write_maxp(n as u16, true), loca_long, others, name: "generated".into() }
+}
+
+/// Abstract form of a real TrueType font (independent reader).
+pub fn read_ttfont(data: &[u8], name: &str) -> Option<TtFont> {
+    let f = sfnt::Font::parse(data)?;
+    let head = f.gets("head")?.to_vec();
+    let hhea = f.gets("hhea")?.to_vec();
+    let maxp = f.gets("maxp")?.to_vec();
+    let n = it::maxp_num_glyphs(&maxp)? as usize;
+    let h = it::Head::read(&head)?;
+    let long = h.index_to_loc_format != 0;
+    let loca = ig::read_loca(f.gets("loca")?, n, long)?;
+    let glyf = f.gets("glyf")?;
+    let mut glyphs = Vec::new();
+    for i in 0..n {
+        let (a, b) = (loca[i] as usize, loca[i + 1] as usize);
+        if b < a {
+            return None;
+        }
+        let rec = glyf.get(a..b)?;
+        glyphs.push(ig::read_glyph(rec)?);
+    }
+    let nhm = it::Hhea::read(&hhea)?.num_h_metrics as usize;
+    let metrics = it::read_hmtx(f.gets("hmtx")?, n, nhm)?;
+    let skip = [tag("head"), tag("hhea"), tag("maxp"), tag("hmtx"), tag("glyf"), tag("loca")];
+    let others = f.tables.iter().filter(|(t, _)| !skip.contains(t)).cloned().collect();
+    Some(TtFont { flavor: f.version, glyphs, metrics, num_h_metrics: nhm, head, hhea, maxp, loca_long: long, others, name: name.to_string() })
+}
+
+fn same_glyph(a: &Glyph, b: &Glyph) -> bool {
+    let norm = |g: &Glyph| -> Glyph {
+        match g {
+            Glyph::Simple(s) if s.contours.is_empty() => Glyph::Empty,
+            Glyph::Simple(s) => {
+                let mut s = s.clone();
+                s.overlap = false;
+                Glyph::Simple(s)
+            }
+            Glyph::Composite(c) => {
+                let mut c = c.clone();
+                for k in &mut c.components {
+                    k.force_words = false;
+                    k.extra_flags &= !0x400;
+                }
+                Glyph::Composite(c)
+            }
+            Glyph::Empty => Glyph::Empty,
+        }
+    };
+    norm(a) == norm(b)
+}
+
+struct Encoded {
+    bytes: Vec<u8>,
+    desc: String,
+    glyf_transformed: bool,
+    hmtx_transformed: bool,
+    elide: (bool, bool),
+}
+
+fn encode(font: &TtFont, rng: &mut Rng, cx: &mut Ctx) -> Encoded {
+    let glyf_t = rng.chance(3, 4);
+    let enc = EncChoice::random(rng);
+    let records: Vec<Vec<u8>> = font
+        .glyphs
+        .iter()
+        .map(|(g, bb)| match g {
+            Glyph::Empty => Vec::new(),
+            Glyph::Simple(s) if s.contours.is_empty() => Vec::new(),
+            Glyph::Simple(s) => ig::write_simple(s, *bb, rng, &enc),
+            Glyph::Composite(c) => ig::write_composite(c, *bb),
+        })
+        .collect();
+    let (glyf_raw, loca_raw, long) = ig::build_glyf_loca(&records, font.loca_long, rng.bool());
+    let mut head = font.head.clone();
+    if head.len() >= 52 {
+        head[50..52].copy_from_slice(&(long as i16).to_be_bytes());
+    }
+    let mut tables: Vec<W2Table> = Vec::new();
+    let plain = |t: u32, d: Vec<u8>, rng: &mut Rng| W2Table { tag: t, orig_length: d.len() as u32, payload: d, transform_version: 0, has_transform_length: false, force_arbitrary_tag: rng.chance(1, 8) };
+    tables.push(plain(tag("head"), head, rng));
+    tables.push(plain(tag("hhea"), font.hhea.clone(), rng));
+    tables.push(plain(tag("maxp"), font.maxp.clone(), rng));
+    for (t, d) in &font.others {
+        tables.push(plain(*t, d.clone(), rng));
+    }
+    // hmtx
+    let can_elide_lsb = font.metrics[..font.num_h_metrics].iter().zip(font.glyphs.iter()).all(|(m, g)| m.1 == xmin_of(g));
+    let can_elide_tail = font.metrics[font.num_h_metrics..].iter().zip(font.glyphs[font.num_h_metrics..].iter()).all(|(m, g)| m.1 == xmin_of(g));
+    let hmtx_raw = it::write_hmtx(&font.metrics, font.num_h_metrics);
+    let hmtx_t = glyf_t && (can_elide_lsb || can_elide_tail) && rng.chance(3, 4);
+    let mut elide = (false, false);
+    if hmtx_t {
+        elide = (can_elide_lsb && rng.chance(3, 4), can_elide_tail && rng.chance(3, 4));
+        if !elide.0 && !elide.1 {
+            if can_elide_lsb {
+                elide.0 = true;
+            } else {
+                elide.1 = true;
+            }
+        }
+        let payload = w2::transform_hmtx(&font.metrics, font.num_h_metrics, elide.0, elide.1);
+        tables.push(W2Table { tag: tag("hmtx"), orig_length: hmtx_raw.len() as u32, payload, transform_version: 1, has_transform_length: true, force_arbitrary_tag: false });
+    } else {
+        tables.push(plain(tag("hmtx"), hmtx_raw, rng));
+    }
+    rng.shuffle(&mut tables);
+    // glyf immediately followed by loca, at a random position
+    let pos = rng.below(tables.len() + 1);
+    let mut classes = Vec::new();
+    if glyf_t {
+        let ch = GlyfChoices { explicit_bbox: rng.below(9) as u32, overlap_bitmap: rng.bool() };
+        let payload = w2::transform_glyf(&font.glyphs, long as u16, &ch, rng, &mut classes);
+        tables.insert(pos, W2Table { tag: tag("glyf"), orig_length: glyf_raw.len() as u32, payload, transform_version: 0, has_transform_length: true, force_arbitrary_tag: false });
+        tables.insert(pos + 1, W2Table { tag: tag("loca"), orig_length: loca_raw.len() as u32, payload: Vec::new(), transform_version: 0, has_transform_length: true, force_arbitrary_tag: false });
+    } else {
+        tables.insert(pos, W2Table { tag: tag("glyf"), orig_length: glyf_raw.len() as u32, payload: glyf_raw, transform_version: 3, has_transform_length: false, force_arbitrary_tag: false });
+        tables.insert(pos + 1, W2Table { tag: tag("loca"), orig_length: loca_raw.len() as u32, payload: loca_raw, transform_version: 3, has_transform_length: false, force_arbitrary_tag: false });
+    }
+    for f in classes {
+        cx.class(&format!("triplet-flag:{:03}", f));
+    }
+    let chunk = *rng.pick(&[65536usize, 65536, 1000, 17, 4096]);
+    let with_meta = rng.chance(1, 5);
+    let bytes = w2::build_woff2(font.flavor, &tables, None, chunk, rng, with_meta);
+    Encoded {
+        bytes,
+        desc: format!("glyf_transformed={} hmtx_transformed={} elide={:?} loca_long={} tables={} chunk={}", glyf_t, hmtx_t, elide, long, tables.len(), chunk),
+        glyf_transformed: glyf_t,
+        hmtx_transformed: hmtx_t,
+        elide,
+    }
+}
+
+fn compare<P: FontTableProvider + SfntVersion>(cx: &mut Ctx, font: &TtFont, p: &P, enc_desc: &str, woff2: &[u8]) -> bool {
+    let wit = |what: String| {
+        J::obj(vec![("what", J::s(what)), ("font", J::s(font.name.clone())), ("encoding", J::s(enc_desc)), ("num_glyphs", J::U(font.glyphs.len() as u64)), ("woff2_head", J::hex(&woff2[..woff2.len().min(300)])), ("woff2_len", J::U(woff2.len() as u64))])
+    };
+    let get = |t: u32| -> Option<Vec<u8>> { p.table_data(t).ok().flatten().map(|c| c.into_owned()) };
+    // (the flavour reported for members of a collection is not part of C11's statement)
+    if !enc_desc.starts_with("collection") && p.sfnt_version() != font.flavor {
+        cx.violation("flavour", "flavour", wit(format!("flavour {:#x} expected {:#x}", p.sfnt_version(), font.flavor)));
+        return false;
+    }
+    // untransformed tables byte-identical
+    for (t, d) in font.others.iter().chain([(tag("hhea"), font.hhea.clone()), (tag("maxp"), font.maxp.clone())].iter()) {
+        match get(*t) {
+            Some(got) if got == *d => {}
+            other => {
+                cx.violation("untransformed-table", "untransformed-table-differs", wit(format!("table {} differs: {:?} bytes vs {} stored", sfnt::tag_str(*t), other.map(|o| o.len()), d.len())));
+                return false;
+            }
+        }
+    }
+    let mut tags = p.table_tags().unwrap_or_default();
+    tags.sort();
+    let mut want: Vec<u32> = font.others.iter().map(|t| t.0).chain([tag("head"), tag("hhea"), tag("maxp"), tag("hmtx"), tag("glyf"), tag("loca")]).collect();
+    want.sort();
+    if tags != want {
+        cx.violation("table-set", "table-set-differs", wit(format!("tags {:x?} expected {:x?}", tags, want)));
+        return false;
+    }
+    // head: identical apart from checkSumAdjustment and indexToLocFormat
+    let head = match get(tag("head")) {
+        Some(h) if h.len() == font.head.len() && h.len() >= 54 => h,
+        other => {
+            cx.violation("head", "head-missing", wit(format!("head {:?}", other.map(|o| o.len()))));
+            return false;
+        }
+    };
+    for (i, (a, b)) in head.iter().zip(font.head.iter()).enumerate() {
+        if a != b && !(8..12).contains(&i) && !(50..52).contains(&i) {
+            cx.violation("head", "head-differs", wit(format!("head byte {} is {:#x} expected {:#x}", i, a, b)));
+            return false;
+        }
+    }
+    let long = i16::from_be_bytes([head[50], head[51]]) != 0;
+    let n = font.glyphs.len();
+    let (glyf, loca) = match (get(tag("glyf")), get(tag("loca"))) {
+        (Some(g), Some(l)) => (g, l),
+        _ => {
+            cx.violation("glyf", "glyf-or-loca-missing", wit("glyf/loca missing".into()));
+            return false;
+        }
+    };
+    let offs = match ig::read_loca(&loca, n, long) {
+        Some(o) => o,
+        None => {
+            cx.violation("loca", "loca-too-short", wit(format!("loca has {} bytes for {} glyphs (long={})", loca.len(), n, long)));
+            return false;
+        }
+    };
+    for i in 0..n {
+        let (a, b) = (offs[i] as usize, offs[i + 1] as usize);
+        if b < a || b > glyf.len() {
+            cx.violation("loca", "loca-inconsistent", wit(format!("glyph {}: loca {}..{} outside glyf of {} bytes", i, a, b, glyf.len())));
+            return false;
+        }
+        let (g, bb) = match ig::read_glyph(&glyf[a..b]) {
+            Some(x) => x,
+            None => {
+                cx.violation("glyph", "glyph-unparsable", wit(format!("reconstructed glyph {} does not parse", i)));
+                return false;
+            }
+        };
+        let (eg, ebb) = &font.glyphs[i];
+        if !same_glyph(&g, eg) {
+            let sig = match eg {
+                Glyph::Composite(_) => "composite-differs",
+                Glyph::Simple(_) => "simple-glyph-differs",
+                Glyph::Empty => "empty-glyph-differs",
+            };
+            cx.violation("glyph", sig, wit(format!("glyph {}: reconstructed {:?} expected {:?}", i, g, eg).chars().take(2500).collect()));
+            return false;
+        }
+        let is_empty = matches!(eg, Glyph::Empty) || matches!(eg, Glyph::Simple(s) if s.contours.is_empty());
+        if !is_empty && bb != *ebb {
+            cx.violation("bbox", "bbox-differs", wit(format!("glyph {}: bbox {:?} expected {:?}", i, bb, ebb)));
+            return false;
+        }
+    }
+    // metrics of every glyph
+    let nhm = font.num_h_metrics;
+    let hmtx = get(tag("hmtx")).unwrap_or_default();
+    match it::read_hmtx(&hmtx, n, nhm) {
+        Some(m) => {
+            for i in 0..n {
+                if m[i] != font.metrics[i] {
+                    let sig = if i >= nhm { "hmtx-tail-lsb-differs" } else if m[i].0 != font.metrics[i].0 { "hmtx-advance-differs" } else { "hmtx-lsb-differs" };
+                    cx.violation("hmtx", sig, wit(format!("glyph {} (numberOfHMetrics {}): metrics {:?} expected {:?}", i, nhm, m[i], font.metrics[i])));
+                    return false;
+                }
+            }
+        }
+        None => {
+            cx.violation("hmtx", "hmtx-too-short", wit(format!("hmtx has {} bytes for {} glyphs / {} long metrics", hmtx.len(), n, nhm)));
+            return false;
+        }
+    }
+    true
+}
+
 impl Prop for C11 {
-    fn case(&mut self, cx: &mut Ctx, _rng: &mut Rng) {
-        cx.inconclusive("not-implemented");
+    fn exhaustive(&mut self, cx: &mut Ctx, shard: u64, of: u64) {
+        // 255UInt16: every value x every legal encoding
+        let mut n = 0u64;
+        for v in 0..=u16::MAX {
+            if v as u64 % of != shard {
+                continue;
+            }
+            for e in w2::enc_255_all(v) {
+                n += 1;
+                let mut bytes = e.clone();
+                bytes.push(0xAA); // trailing byte must not be consumed
+                let mut c = ReadScope::new(&bytes).ctxt();
+                match c.read::<PackedU16>() {
+                    Ok(got) if got == v => {
+                        if c.scope().data().len() != 1 {
+                            cx.violation("varint", "255uint16-length", J::s(format!("encoding {:x?} consumed {} bytes", e, bytes.len() - c.scope().data().len())));
+                        }
+                    }
+                    other => cx.violation("varint", "255uint16-value", J::s(format!("encoding {:x?} of {} decoded to {:?}", e, v, other))),
+                }
+            }
+        }
+        cx.class_n("exhaustive:255uint16-encodings", n);
+        cx.evals += n;
+        if shard == 0 {
+            let mut rng = Rng::new(0xB128);
+            let mut vals: Vec<u32> = vec![0, 1, 127, 128, 16383, 16384, 2097151, 2097152, 268435455, 268435456, u32::MAX, u32::MAX - 1];
+            for _ in 0..200_000 {
+                vals.push(rng.u32() >> rng.below(32));
+            }
+            for v in vals {
+                let mut e = w2::enc_base128(v);
+                e.push(0x55);
+                let mut c = ReadScope::new(&e).ctxt();
+                match c.read::<U32Base128>() {
+                    Ok(got) if got == v && c.scope().data().len() == 1 => {}
+                    other => cx.violation("varint", "uintbase128-value", J::s(format!("{:x?} (value {}) decoded to {:?}", e, v, other))),
+                }
+            }
+            // rejection rules
+            for bad in [vec![0x80u8, 0x01], vec![0xFF, 0xFF, 0xFF, 0xFF, 0xFF, 0x01], vec![0x90, 0x80, 0x80, 0x80, 0x00], vec![0xFF, 0xFF, 0xFF, 0xFF, 0x7F]] {
+                if let Ok(v) = ReadScope::new(&bad).read::<U32Base128>() {
+                    cx.violation("varint", "uintbase128-accepts-invalid", J::s(format!("{:x?} decoded to {}", bad, v)));
+                }
+            }
+            cx.class("exhaustive:uintbase128");
+            cx.evals += 200_016;
+        }
+    }
+
+    fn case(&mut self, cx: &mut Ctx, rng: &mut Rng) {
+        let use_real = !self.seeds.is_empty() && rng.chance(1, if cx.quick() { 12 } else { 6 });
+        if use_real {
+            let s = &self.seeds[rng.below(self.seeds.len())];
+            if &s.data[..4] == b"OTTO" {
+                // CFF flavoured: nothing is transformed, everything must come back byte-identical
+                let f = match sfnt::Font::parse(&s.data) {
+                    Some(f) => f,
+                    None => return,
+                };
+                let mut tables: Vec<W2Table> = f.tables.iter().map(|(t, d)| W2Table { tag: *t, orig_length: d.len() as u32, payload: d.clone(), transform_version: 0, has_transform_length: false, force_arbitrary_tag: rng.chance(1, 8) }).collect();
+                rng.shuffle(&mut tables);
+                let bytes = w2::build_woff2(f.version, &tables, None, 65536, rng, false);
+                let fd = ReadScope::new(&bytes).read::<FontData<'_>>();
+                let p = fd.ok().and_then(|fd| fd.table_provider(0).ok());
+                match p {
+                    Some(p) => {
+                        for (t, d) in &f.tables {
+                            if p.table_data(*t).ok().flatten().map(|c| c.into_owned()).as_deref() != Some(d.as_slice()) {
+                                cx.violation("untransformed-table", "cff-font-table-differs", J::s(format!("{} table {}", s.name, sfnt::tag_str(*t))));
+                                return;
+                            }
+                        }
+                        cx.class("real:cff-flavoured");
+                        cx.nontrivial(hash_bytes(&bytes));
+                    }
+                    None => cx.violation("rejected", "cff-font-rejected", J::s(s.name.clone())),
+                }
+                return;
+            }
+            let font = match read_ttfont(&s.data, &s.name) {
+                Some(f) => f,
+                None => {
+                    cx.class("real:skipped-unreadable");
+                    return;
+                }
+            };
+            self.roundtrip(cx, rng, &font, "real");
+            return;
+        }
+        if rng.chance(1, 8) {
+            self.collection(cx, rng);
+            return;
+        }
+        let font = gen_ttfont(rng, cx.quick());
+        self.roundtrip(cx, rng, &font, "gen");
+    }
+}
+
+impl C11 {
+    fn roundtrip(&self, cx: &mut Ctx, rng: &mut Rng, font: &TtFont, kind: &str) {
+        let e = encode(font, rng, cx);
+        let fd = match ReadScope::new(&e.bytes).read::<FontData<'_>>() {
+            Ok(f) => f,
+            Err(err) => {
+                cx.violation("rejected", "woff2-rejected", J::obj(vec![("error", J::s(format!("{:?}", err))), ("font", J::s(font.name.clone())), ("encoding", J::s(e.desc.clone())), ("woff2_head", J::hex(&e.bytes[..e.bytes.len().min(300)]))]));
+                return;
+            }
+        };
+        let p = match fd.table_provider(0) {
+            Ok(p) => p,
+            Err(err) => {
+                cx.violation("rejected", if e.glyf_transformed { "woff2-transformed-provider-rejected" } else { "woff2-provider-rejected" }, J::obj(vec![("error", J::s(format!("{:?}", err))), ("font", J::s(font.name.clone())), ("encoding", J::s(e.desc.clone())), ("woff2_head", J::hex(&e.bytes[..e.bytes.len().min(400)]))]));
+                return;
+            }
+        };
+        if compare(cx, font, &p, &e.desc, &e.bytes) {
+            cx.class(&format!("{}:ok", kind));
+            cx.class(if e.glyf_transformed { "glyf:transformed" } else { "glyf:null-transform" });
+            if e.hmtx_transformed {
+                cx.class("hmtx:transformed");
+                if e.elide.0 {
+                    cx.class("hmtx:lsb-elided");
+                }
+                if e.elide.1 {
+                    cx.class(if font.num_h_metrics < font.glyphs.len() { "hmtx:tail-elided-with-tail" } else { "hmtx:tail-elided-empty-tail" });
+                }
+            }
+            if font.num_h_metrics < font.glyphs.len() {
+                cx.class("numberOfHMetrics<numGlyphs");
+            }
+            if font.glyphs.iter().any(|g| matches!(g.0, Glyph::Composite(_))) {
+                cx.class("has-composite");
+            }
+        }
+        cx.nontrivial(hash_bytes(&e.bytes));
+        if cx.want_sample() {
+            cx.sample(J::obj(vec![("font", J::s(font.name.clone())), ("glyphs", J::U(font.glyphs.len() as u64)), ("encoding", J::s(e.desc))]));
+        }
+    }
+
+    /// Collection of two or three generated fonts, glyf/loca shared or not.
+    fn collection(&self, cx: &mut Ctx, rng: &mut Rng) {
+        let base = gen_ttfont(rng, true);
+        let nfonts = 2 + rng.below(2);
+        let share_glyf = rng.bool();
+        let mut fonts: Vec<TtFont> = vec![base.clone()];
+        for _ in 1..nfonts {
+            if share_glyf {
+                let mut f = base.clone();
+                f.others = gen_ttfont(rng, true).others;
+                fonts.push(f);
+            } else {
+                fonts.push(gen_ttfont(rng, true));
+            }
+        }
+        // table list: per font its tables, shared glyf/loca/head/hhea/maxp/hmtx when share_glyf
+        let mut tables: Vec<W2Table> = Vec::new();
+        let mut members: Vec<(u32, Vec<u16>)> = Vec::new();
+        let mut shared_idx: Vec<u16> = Vec::new();
+        let mut dummy = Vec::new();
+        for (k, f) in fonts.iter().enumerate() {
+            let mut idx: Vec<u16> = Vec::new();
+            if !(share_glyf && k > 0) {
+                let enc = EncChoice::compact();
+                let records: Vec<Vec<u8>> = f
+                    .glyphs
+                    .iter()
+                    .map(|(g, bb)| match g {
+                        Glyph::Empty => Vec::new(),
+                        Glyph::Simple(s) if s.contours.is_empty() => Vec::new(),
+                        Glyph::Simple(s) => ig::write_simple(s, *bb, rng, &enc),
+                        Glyph::Composite(c) => ig::write_composite(c, *bb),
+                    })
+                    .collect();
+                let (glyf_raw, loca_raw, long) = ig::build_glyf_loca(&records, f.loca_long, false);
+                let mut head = f.head.clone();
+                head[50..52].copy_from_slice(&(long as i16).to_be_bytes());
+                let start = tables.len() as u16;
+                let push_plain = |tables: &mut Vec<W2Table>, t: u32, d: Vec<u8>| tables.push(W2Table { tag: t, orig_length: d.len() as u32, payload: d, transform_version: 0, has_transform_length: false, force_arbitrary_tag: false });
+                push_plain(&mut tables, tag("head"), head);
+                push_plain(&mut tables, tag("hhea"), f.hhea.clone());
+                push_plain(&mut tables, tag("maxp"), f.maxp.clone());
+                push_plain(&mut tables, tag("hmtx"), it::write_hmtx(&f.metrics, f.num_h_metrics));
+                let ch = GlyfChoices { explicit_bbox: 0, overlap_bitmap: false };
+                let payload = w2::transform_glyf(&f.glyphs, long as u16, &ch, rng, &mut dummy);
+                tables.push(W2Table { tag: tag("glyf"), orig_length: glyf_raw.len() as u32, payload, transform_version: 0, has_transform_length: true, force_arbitrary_tag: false });
+                tables.push(W2Table { tag: tag("loca"), orig_length: loca_raw.len() as u32, payload: Vec::new(), transform_version: 0, has_transform_length: true, force_arbitrary_tag: false });
+                let core: Vec<u16> = (start..tables.len() as u16).collect();
+                if share_glyf {
+                    shared_idx = core.clone();
+                }
+                idx.extend(core);
+            } else {
+                idx.extend(shared_idx.iter().copied());
+            }
+            for (t, d) in &f.others {
+                idx.push(tables.len() as u16);
+                tables.push(W2Table { tag: *t, orig_length: d.len() as u32, payload: d.clone(), transform_version: 0, has_transform_length: false, force_arbitrary_tag: false });
+            }
+            members.push((f.flavor, idx));
+        }
+        let bytes = w2::build_woff2(tag("ttcf"), &tables, Some(&members), 65536, rng, false);
+        let fd = match ReadScope::new(&bytes).read::<FontData<'_>>() {
+            Ok(f) => f,
+            Err(err) => {
+                cx.violation("rejected", "woff2-collection-rejected", J::obj(vec![("error", J::s(format!("{:?}", err))), ("woff2_head", J::hex(&bytes[..bytes.len().min(400)]))]));
+                return;
+            }
+        };
+        let mut ok = true;
+        for (k, f) in fonts.iter().enumerate() {
+            match fd.table_provider(k) {
+                Ok(p) => ok &= compare(cx, f, &p, &format!("collection member {} of {} shared_glyf={}", k, nfonts, share_glyf), &bytes),
+                Err(err) => {
+                    cx.violation("rejected", "woff2-collection-member-rejected", J::obj(vec![("member", J::U(k as u64)), ("error", J::s(format!("{:?}", err))), ("shared_glyf", J::Bool(share_glyf)), ("woff2_head", J::hex(&bytes[..bytes.len().min(400)]))]));
+                    ok = false;
+                }
+            }
+        }
+        if fd.table_provider(nfonts).is_ok() {
+            cx.violation("index-beyond-end", "woff2-collection-index-beyond-end", J::s(format!("table_provider({}) on a {}-font collection succeeded", nfonts, nfonts)));
+        }
+        if ok {
+            cx.class(if share_glyf { "collection:shared-glyf" } else { "collection:separate-glyf" });
+        }
+        cx.nontrivial(hash_bytes(&bytes));
     }
 }
